@@ -3,6 +3,8 @@ package main
 import (
 	"bufio"
 	"fmt"
+	"os"
+	"path/filepath"
 	"strconv"
 	"strings"
 	"time"
@@ -70,6 +72,24 @@ func runRump(c []string) (res string) {
 			}
 			so.ScanPages[db] = pages
 		}
+	}
+	// optional 6th field: kf=<keyhex,keyhex,...> - a key file drives the scan instead of SCAN
+	if len(c) > 5 && strings.HasPrefix(c[5], "kf=") {
+		dir, _ := os.MkdirTemp("", "rsprobe-kf")
+		defer os.RemoveAll(dir)
+		var lines []string
+		if c[5] != "kf=" {
+			for _, h := range strings.Split(c[5][3:], ",") {
+				lines = append(lines, string(unhex(h)))
+			}
+		}
+		kf := filepath.Join(dir, "keys.txt")
+		body := strings.Join(lines, "\n")
+		if len(lines) > 0 {
+			body += "\n"
+		}
+		os.WriteFile(kf, []byte(body), 0o644)
+		conf.Options.ScanKeyFile = kf
 	}
 	src, err := fakeredis.New(so)
 	if err != nil {
